@@ -282,7 +282,6 @@ func TestVerifC05_scalar448(t *testing.T) {
 	if r.Replaying() {
 		return
 	}
-	r.RequireCounter("FromBytes(114)-ok", 1)
 	if r.Counter("FromBytes(114)-ok")+r.Counter("FromBytes(114)-wrong") < int64(len(in114)) ||
 		r.Counter("FromBytes(57)-ok")+r.Counter("FromBytes(57)-wrong") < int64(total*5) ||
 		r.Counter("Mul-ok")+r.Counter("Mul-wrong") < int64(n*n) {
